@@ -7,6 +7,8 @@ Tie K: generated instances over many dimension groups of the real universe / nes
        keys run through the real classes (harness/impl/c18_impl.py, worker subprocesses); the wire JSON of
        to_json(), the state of the object from_json gives back, Config.names()/[]/in/nameTuples results are
        compared with the Coq models by vm_compute (Model/SerialCheck.v).
+       Batches of objects with colliding memo keys are also read back inside ONE PersistenceContextVars().run(...)
+       (per-kind contexts compared with the memo-table model Model/SerialCtx.v, mixed contexts oracle only).
 Oracle: written from the property statement: object == original, equal hash, documented expansion state, records
        usable as the original's, re-serialisable; for every reported Config name/tuple: retrieves exactly the
        value found by plain indexing of the original tree and is `in` the Config.
@@ -339,6 +341,41 @@ def oracle_config(ctx: Ctx, o, src):
             ctx.oracle_fail(f"roundtrip:config:{form}:names", rp, "names() of the Config read back differ")
 
 
+def oracle_context(ctx: Ctx, batch):
+    """Round trips inside one PersistenceContextVars().run(...): the oracle is the one of the plain round trip -- every
+    object must come back equal to ITS original (same hash, same expansion state, same records, same run), whatever
+    else was read in the same context.  `diff` lists the documented aspects in which the object that came back differs."""
+    mixed = batch["kind"] == "mixed"
+    if "gen_exc" in batch:
+        ctx.oracle_fail("context:generation-raised", {"kind": "context", "error": batch["gen_exc"]}, batch["gen_exc"])
+        return
+    for i, it in enumerate(batch["items"]):
+        ctx.count()
+        ctx.hist("context_outcome", f"{batch['kind']}:{it['kind']}:{'+'.join(sorted(it['diff'])) or 'same'}")
+        if it["diff"]:
+            sig = f"context:{'mixed:' if mixed else ''}{it['kind']}:wrong:" + "+".join(sorted(it["diff"]))
+            ctx.oracle_fail(sig, {"kind": "context", "seed": batch.get("seed"), "batch": batch.get("batch"), "context": batch["kind"],
+                                  "index": i, "inst": it["inst"], "differs_in": it["diff"], "error": it.get("exc"),
+                                  "read_before_in_same_context": [x["win"] for x in batch["items"][:i]][-12:], "wire": it["win"]},
+                            f"{it['kind']} read back inside a persistence context differs from the original in: {', '.join(it['diff'])}")
+        ctx.nontrivial(["ctx", batch["kind"], it["kind"], it["inst"]])
+
+
+def context_coq_case(batch):
+    k = batch["kind"]
+    u = uctx(batch["ctx"])
+    rows = []
+    for it in batch["items"]:
+        if it.get("wout") is None:
+            obs = "None"
+        elif k in ("coord", "ref"):
+            obs = f"(Some ({jv(it['wout'])}, {obs_state(it['state'])}))"
+        else:
+            obs = f"(Some ({jv(it['wout'])}))"
+        rows.append(f"({jv(it['win'])}, {obs})")
+    return f"({u}, {clist(rows)})"
+
+
 # ---------------------------------------------------------------------------------------------------
 # Coq cases
 # ---------------------------------------------------------------------------------------------------
@@ -409,11 +446,14 @@ def run(ctx: Ctx):
         "the dimension universe enters the codec model as a finite `conform` table and record schemas read from the real universe for every case",
         "str.isalnum is a parameter of the Config key model; the run supplies Python's answer for every character of a case",
         "Python int() is modelled for ASCII whitespace / sign / digits / single underscores only (the probes stay in that alphabet)",
+        "persistence-context memo tables: each from_simple is modelled with its own table only (nested tables are exercised by the mixed contexts, oracle only); "
+        "overrideStorageClass's convertibility check is not modelled (ref batches use mutually convertible storage classes)",
     ]
     ctx.cov["rule"] = (
         "a serial case is non-trivial when the instance has at least one dimension (data IDs, refs, records, groups), "
         "timespans and dataset types always; a Config case is non-trivial when names() reports at least 2 keys with "
-        "nesting depth >= 2; distinctness by hash of the abstracted instance / tree"
+        "nesting depth >= 2; every object read inside a persistence context counts (each batch holds colliding memo keys); "
+        "distinctness by hash of the abstracted instance / tree"
     )
     # tie T: the __reduce__ bodies of the data ID classes, regenerated; the other pickle hooks shape-checked (fail-closed)
     ctx.regen("c18_reduce", c18_reduce.translate)
@@ -457,8 +497,16 @@ def run(ctx: Ctx):
     kinds = ["ts", "grp", "rec", "coord", "dt", "ref"]
     pay = [("serial_cases", {"seed": base + i, "n": n_serial, "kinds": kinds}) for i in range(nsh)]
     payc = [("config_cases", {"seed": base + 500 + i, "n": n_cfg}) for i in range(nsh)]
+    payx = [{"seed": base + 300 + i, "n": 5 if ctx.quick else 12} for i in range(nsh)]
     sres = parallel_workers("c18_impl", "serial_cases", [p for _, p in pay], timeout=900)
     cres_ = parallel_workers("c18_impl", "config_cases", [p for _, p in payc], timeout=900)
+    xres = parallel_workers("c18_impl", "context_cases", payx, timeout=900)
+    batches = []
+    for (st, res), p in zip(xres, payx):
+        if st != "ok":
+            ctx.tie_broken("harness", "context worker", f"{st}: {str(res)[-400:]}")
+            continue
+        batches += res
     serial = list(corpus_serial)
     for (st, res), (_, p) in zip(sres, pay):
         if st != "ok":
@@ -472,6 +520,7 @@ def run(ctx: Ctx):
         cfg_obs += [(o, f"seed{p['seed']}") for o in res]
 
     run_cases(ctx, serial, cfg_obs)
+    run_context(ctx, batches)
 
     if ctx.broken and not ctx.oracle_failures:
         # something no longer checks but the oracle held: search deeper on the implementation
@@ -485,11 +534,38 @@ def run(ctx: Ctx):
         for st, res in cres2:
             if st == "ok":
                 extra_c += [(o, "search") for o in res]
+        xres = parallel_workers("c18_impl", "context_cases", [{"seed": base + 900 + i, "n": 12} for i in range(16)], timeout=900)
+        for st, res in xres:
+            if st == "ok":
+                for b in res:
+                    oracle_context(ctx, b)
         for c in extra_s:
             oracle_serial(ctx, c)
         for o, src in extra_c:
             oracle_config(ctx, o, src)
         ctx.cov["search"] = f"oracle evaluated on {len(extra_s)} more serial cases and {len(extra_c)} more Config trees (seeds {base + 100}.., {base + 700}..)"
+
+
+CHK_CTX = {"dt": "chk_ctx_dt", "coord": "chk_ctx_coord", "rec": "chk_ctx_rec", "ref": "chk_ctx_ref"}
+
+
+def run_context(ctx: Ctx, batches):
+    """persistence-context batches: oracle on every item; the per-kind contexts against the memo-table model"""
+    for b in batches:
+        oracle_context(ctx, b)
+    by_kind = {}
+    for b in batches:
+        if b["kind"] in CHK_CTX and "gen_exc" not in b:
+            by_kind.setdefault(b["kind"], []).append((context_coq_case(b), b))
+    for k, lst in by_kind.items():
+        bad = ctx.coq_cases(f"ctx_{k}", HDR_S, [l for l, _ in lst], CHK_CTX[k], shard=12)
+        for i in (bad or [])[:3]:
+            b = lst[i][1]
+            ctx.disagreement(f"ctx_{k}", {"kind": k, "seed": b.get("seed"), "batch": b.get("batch"),
+                                          "history": [{"wire": it["win"], "came_back": it.get("wout"), "differs_in": it["diff"]} for it in b["items"]]},
+                             "memo-table model differs from the implementation on a history read inside one persistence context")
+    if by_kind.get("dt"):
+        ctx.sample({"context_batch_dt": [{"wire": it["win"], "differs_in": it["diff"]} for it in by_kind["dt"][0][1]["items"]]})
 
 
 def run_cases(ctx: Ctx, serial, cfg_obs):
